@@ -102,6 +102,9 @@ type script struct {
 	// Group: k >= 2 connections are Dialled from ONE ParseArgs result, the next one while the
 	// previous ones are still polling; each runs this script
 	Group int `json:"group,omitempty"`
+	// FrameOff rotates which framing (Content-Length / chunked / EOF-delimited) the k-th
+	// non-empty response gets
+	FrameOff int `json:"frame_off,omitempty"`
 }
 
 type session struct {
@@ -110,29 +113,33 @@ type session struct {
 	mu  sync.Mutex
 	log []string
 
-	up, down     []byte // the byte streams
-	downOff      int
-	nreq         int
-	sids         map[string]bool
-	maxBody      int
-	inflight     int32
-	maxInflight  int32
-	upGot        bytes.Buffer // concatenation of the request bodies (200-answered and others)
-	respBodies   bytes.Buffer // concatenation of the 200 response bodies
-	allOK        bool
-	closedAt     int // index in log of the `cr` event (-1: not yet)
-	reqAfter     int // requests that arrived after Close returned
-	accepted     bytes.Buffer
-	called       bytes.Buffer
-	readGot      bytes.Buffer
-	reqSeen      chan int
-	oracle       []string
-	writerFin    int32
-	nonEmpty     int // non-empty 200 responses sent
-	postWrite    string
-	postRead     string
-	postReadData int
-	readerLeft   bool
+	up, down       []byte // the byte streams
+	downOff        int
+	nreq           int
+	sids           map[string]bool
+	maxBody        int
+	inflight       int32
+	maxInflight    int32
+	upGot          bytes.Buffer // concatenation of the request bodies (200-answered and others)
+	respBodies     bytes.Buffer // concatenation of the 200 response bodies
+	allOK          bool
+	closedAt       int // index in log of the `cr` event (-1: not yet)
+	reqAfter       int // requests that arrived after Close returned
+	accepted       bytes.Buffer
+	called         bytes.Buffer
+	readGot        bytes.Buffer
+	reqSeen        chan int
+	oracle         []string
+	writerFin      int32
+	blockedAtClose bool // Close was called while a Write call was in progress (blocked)
+	nonEmpty       int  // non-empty 200 responses sent
+	framings       map[string]int
+	inWrite        int32 // the writer is inside a Write call
+	writeSeq       int32 // Write calls started
+	postWrite      string
+	postRead       string
+	postReadData   int
+	readerLeft     bool
 }
 
 func (s *session) ev(e string) int {
@@ -170,7 +177,15 @@ func (sv *server) ServeHTTP(w http.ResponseWriter, r *http.Request) {
 		return
 	}
 	n := atomic.AddInt32(&s.inflight, 1)
-	defer atomic.AddInt32(&s.inflight, -1)
+	// "in flight" ends when the server starts to send its answer (the client may issue the next
+	// request the moment it has the last byte, before this handler has returned)
+	var answered int32
+	answer := func() {
+		if atomic.CompareAndSwapInt32(&answered, 0, 1) {
+			atomic.AddInt32(&s.inflight, -1)
+		}
+	}
+	defer answer()
 	for {
 		m := atomic.LoadInt32(&s.maxInflight)
 		if n <= m || atomic.CompareAndSwapInt32(&s.maxInflight, m, n) {
@@ -234,9 +249,41 @@ func (sv *server) ServeHTTP(w http.ResponseWriter, r *http.Request) {
 		s.nonEmpty++
 	}
 	s.log = append(s.log, "rs:ok:"+vlib.Hex(out))
+	// the framing of the body varies from response to response: explicit Content-Length,
+	// chunked (no Content-Length, flushed part-way), delimited by the end of the connection
+	framing := "content-length"
+	if len(out) > 0 {
+		framing = []string{"content-length", "chunked", "eof-delimited"}[(s.nonEmpty+s.sc.FrameOff)%3]
+		s.framings[framing]++
+	}
 	s.mu.Unlock()
-	w.Header().Set("Content-Length", strconv.Itoa(len(out)))
-	w.Write(out)
+	answer()
+	switch framing {
+	case "chunked":
+		h := len(out) / 2
+		w.Write(out[:h])
+		if f, ok := w.(http.Flusher); ok {
+			f.Flush()
+		}
+		w.Write(out[h:])
+	case "eof-delimited":
+		hj, ok := w.(http.Hijacker)
+		if !ok {
+			w.Write(out)
+			return
+		}
+		c, bw, err := hj.Hijack()
+		if err != nil {
+			return
+		}
+		bw.WriteString("HTTP/1.1 200 OK\r\nConnection: close\r\n\r\n")
+		bw.Write(out)
+		bw.Flush()
+		c.Close()
+	default:
+		w.Header().Set("Content-Length", strconv.Itoa(len(out)))
+		w.Write(out)
+	}
 }
 
 // waitFor polls a condition with a bounded wait (a generous real-time bound, used only to let
@@ -376,6 +423,40 @@ func runSession(sv *server, cf base.ClientFactory, s *session, ca any) {
 			}
 		}()
 	}
+	if closeKind == "when-write-blocks" {
+		// a third goroutine closes once a Write call has been in progress for 250 ms with no
+		// request arriving meanwhile (the send queue is full behind a worker that cannot hand
+		// its response over) — or after 10 s at the latest (bounded)
+		wg.Add(1)
+		go func() {
+			defer wg.Done()
+			deadline := time.Now().Add(10 * time.Second)
+			lastSeq, lastReq, since := int32(-1), -1, time.Now()
+			for time.Now().Before(deadline) {
+				select {
+				case <-closed:
+					return
+				case <-writerDone:
+					closeNow()
+					return
+				default:
+				}
+				s.mu.Lock()
+				nreq := s.nreq
+				s.mu.Unlock()
+				seq := atomic.LoadInt32(&s.writeSeq)
+				if seq != lastSeq || nreq != lastReq || atomic.LoadInt32(&s.inWrite) == 0 {
+					lastSeq, lastReq, since = seq, nreq, time.Now()
+				} else if time.Since(since) > 250*time.Millisecond {
+					s.blockedAtClose = true
+					closeNow()
+					return
+				}
+				time.Sleep(2 * time.Millisecond)
+			}
+			closeNow()
+		}()
+	}
 	if closeKind == "at-request" {
 		wg.Add(1)
 		go func() {
@@ -426,7 +507,10 @@ func runSession(sv *server, cf base.ClientFactory, s *session, ca any) {
 			s.log = append(s.log, "wc:"+vlib.Hex(orig))
 			wasClosed := s.closedAt >= 0
 			s.mu.Unlock()
+			atomic.AddInt32(&s.writeSeq, 1)
+			atomic.StoreInt32(&s.inWrite, 1)
 			n, err := conn.Write(p)
+			atomic.StoreInt32(&s.inWrite, 0)
 			if !sc.FreshBuf {
 				// Write has returned: the buffer is the application's again
 				for i := range wbuf[:sz] {
@@ -480,13 +564,33 @@ func runSession(sv *server, cf base.ClientFactory, s *session, ca any) {
 			s.viol("stream-stalled", d)
 		}
 		if sc.Reads >= 0 {
-			<-readerDone
+			// the reader's k reads (bounded: a Read that gets nothing is ended by the Close below)
+			waitFor(5*time.Second, func() bool {
+				select {
+				case <-readerDone:
+					return true
+				default:
+					return false
+				}
+			})
 		}
 		closeNow()
 	default:
 		<-closed
 	}
-	<-writerDone
+	// property: after Close both Read and Write fail — a Write that is in progress when Close
+	// is called must come back too (bounded wait; a Write that never returns is the finding)
+	if !waitFor(5*time.Second, func() bool {
+		select {
+		case <-writerDone:
+			return true
+		default:
+			return false
+		}
+	}) {
+		s.viol("write-in-progress-never-returns-after-close", fmt.Sprintf("Close returned; 5 s later (bounded wait) Write call no. %d, which was in progress (blocked on the full send queue) when Close was called, has still not returned", atomic.LoadInt32(&s.writeSeq)))
+		return
+	}
 	// after Close has returned: every Write fails, every Read fails
 	readerGone := func() bool {
 		select {
@@ -625,6 +729,11 @@ func judge(r *vlib.Run, d *vlib.Driver, s *session) {
 	r.Case(string(key), nt)
 	r.Validated(1)
 	r.Count("close", strings.SplitN(sc.Close, ":", 2)[0])
+	for f, n := range s.framings {
+		for i := 0; i < n; i++ {
+			r.Count("response_framing", f)
+		}
+	}
 	r.Count("write_buffer", map[bool]string{false: "one-reused-and-scribbled", true: "fresh-per-write"}[sc.FreshBuf])
 	r.Count("server_lag", map[bool]string{false: "none", true: "slow"}[sc.ServerLag > 0])
 	r.Count("requests", bucket(s.nreq))
@@ -816,6 +925,7 @@ func genScript(rng *vlib.Rng, i int) script {
 		sc.ServerLag = rng.Range(50, 3000)
 	}
 	sc.FreshBuf = rng.Intn(5) == 0
+	sc.FrameOff = rng.Intn(3)
 	if rng.Intn(12) == 0 {
 		sc.Group = rng.Range(2, 3)
 		if sc.ServerLag == 0 {
@@ -888,6 +998,21 @@ func closeEverywhere() []script {
 		script{Name: "three-dials-one-parseargs", Writes: many, ReadSizes: []int{100}, Reads: -1, Resp: []int{0, 5}, Down: 60,
 			FailAt: -1, Close: "drained", ServerLag: 500, Group: 3},
 	)
+	tiny := make([]int, 400)
+	for i := range tiny {
+		tiny[i] = 10
+	}
+	out = append(out,
+		// the application stops reading, every request is answered with data, the writer writes
+		// until a Write blocks behind the stuck worker, then a third goroutine closes
+		script{Name: "write-blocked-then-close", Writes: tiny, ReadSizes: []int{4096}, Reads: 0, Resp: []int{5}, Down: 100000,
+			FailAt: -1, Close: "when-write-blocks", NoFlush: true},
+	)
+	for off := 0; off < 3; off++ {
+		// every size meets every framing
+		out = append(out, script{Name: fmt.Sprintf("framing-sizes-%d", off), Writes: small, ReadSizes: []int{70000, 1000}, Reads: -1,
+			Resp: []int{1, 2047, 2048, 2049, 65536, 100, 30000, 65535, 3}, Down: 197839, FailAt: -1, Close: "drained", NoFlush: true, FrameOff: off})
+	}
 	out = append(out,
 		script{Name: "reused-buffer-slow-server", Writes: []int{1, 1, 1, 1, 1, 1, 1, 1}, ReadSizes: []int{4096}, Reads: -1,
 			Resp: []int{0, 3}, Down: 12, FailAt: -1, Close: "drained", ServerLag: 4000},
@@ -1057,7 +1182,7 @@ func main() {
 		json.Unmarshal([]byte(os.Getenv("C16_CANARY")), &list)
 		for i, sc := range list {
 			fmt.Println("start", i)
-			s := &session{id: i, sc: sc, sids: map[string]bool{}, allOK: true, closedAt: -1, reqSeen: make(chan int, 64)}
+			s := &session{id: i, sc: sc, sids: map[string]bool{}, allOK: true, closedAt: -1, reqSeen: make(chan int, 64), framings: map[string]int{}}
 			total := 0
 			for _, w := range sc.Writes {
 				total += w
@@ -1084,9 +1209,12 @@ func main() {
 		var err error
 		select {
 		case err = <-done:
-		case <-time.After(120 * time.Second):
+		case <-time.After(20 * time.Second):
+			// slow is not crashed: the sessions of the main run carry the oracles for that
 			cmd.Process.Kill()
-			err = fmt.Errorf("the child did not finish within 120 s (bounded wait)")
+			<-done
+			r.Notes["canary"] = "the canary child was stopped after 20 s (no crash seen); main run follows"
+			return true
 		}
 		if err == nil && strings.Contains(out.String(), "done") {
 			return true
@@ -1159,7 +1287,7 @@ func main() {
 	sem := make(chan struct{}, par)
 	var wg sync.WaitGroup
 	newSession := func(id int, sc script) *session {
-		s := &session{id: id, sc: sc, sids: map[string]bool{}, allOK: true, closedAt: -1, reqSeen: make(chan int, 64)}
+		s := &session{id: id, sc: sc, sids: map[string]bool{}, allOK: true, closedAt: -1, reqSeen: make(chan int, 64), framings: map[string]int{}}
 		total := 0
 		for _, w := range sc.Writes {
 			total += w
